@@ -93,8 +93,8 @@ Qed.
 
 (* ------------------------------------------------------------------ fragment names: a finite sweep *)
 Definition all_fnames : list fname :=
-  [F_0; F_1; F_pk_k; F_pk_h; F_expr_raw_pk_h; F_after; F_older; F_sha256; F_hash256; F_ripemd160; F_hash160;
-   F_a; F_s; F_pk; F_pkh; F_expr_raw_pkh; F_c; F_d; F_v; F_j; F_n; F_t; F_and_v; F_and_n; F_and_b; F_andor;
+  [F_0; F_1; F_pk_k; F_pk_h; F_expr_raw_pkh; F_after; F_older; F_sha256; F_hash256; F_ripemd160; F_hash160;
+   F_a; F_s; F_pk; F_pkh; F_c; F_d; F_v; F_j; F_n; F_t; F_and_v; F_and_n; F_and_b; F_andor;
    F_or_b; F_or_d; F_or_c; F_u; F_l; F_or_i; F_thresh; F_multi; F_sortedmulti; F_multi_a; F_sortedmulti_a].
 
 Lemma in_all_fnames f : In f all_fnames.
@@ -192,7 +192,7 @@ Section CmpProofs.
       match f with
       | F_0 | F_1 => []
       | F_pk_k | F_pk_h | F_pk | F_pkh => [2]
-      | F_expr_raw_pk_h | F_expr_raw_pkh => [3]
+      | F_expr_raw_pkh => [3]
       | F_after => [4] | F_older => [5] | F_sha256 => [6] | F_hash256 => [7] | F_ripemd160 => [8] | F_hash160 => [9]
       | F_a | F_s | F_c | F_d | F_v | F_j | F_n | F_t | F_u | F_l => [0]
       | F_and_v | F_and_n | F_and_b | F_or_b | F_or_d | F_or_c | F_or_i => [0; 0]
@@ -232,7 +232,7 @@ End CmpProofs.
 Inductive dms :=
 | D0 | D1 | Dpk_k (k : key) | Dpk_h (k : key) | Draw_pk_h (h : bytes) | Dafter (t : N) | Dolder (t : N)
 | Dsha256 (h : bytes) | Dhash256 (h : bytes) | Dripemd160 (h : bytes) | Dhash160 (h : bytes)
-| Da (x : dms) | Ds (x : dms) | Dpk (k : key) | Dpkh (k : key) | Draw_pkh (h : bytes) | Dc (x : dms)
+| Da (x : dms) | Ds (x : dms) | Dpk (k : key) | Dpkh (k : key) | Dc (x : dms)
 | Dd (x : dms) | Dv (x : dms) | Dj (x : dms) | Dn (x : dms) | Dt (x : dms)
 | Dand_v (x y : dms) | Dand_n (x y : dms) | Dand_b (x y : dms) | Dandor (a b c : dms)
 | Dor_b (x y : dms) | Dor_d (x y : dms) | Dor_c (x y : dms) | Du (x : dms) | Dl (x : dms) | Dor_i (x y : dms)
@@ -250,7 +250,6 @@ Section DmsInd.
   Hypothesis Hrip : forall h, P (Dripemd160 h). Hypothesis Hh160 : forall h, P (Dhash160 h).
   Hypothesis Ha : forall x, P x -> P (Da x). Hypothesis Hs : forall x, P x -> P (Ds x).
   Hypothesis Hpk : forall k, P (Dpk k). Hypothesis Hpkh : forall k, P (Dpkh k).
-  Hypothesis Hraw_pkh : forall h, P (Draw_pkh h).
   Hypothesis Hc : forall x, P x -> P (Dc x). Hypothesis Hd : forall x, P x -> P (Dd x).
   Hypothesis Hv : forall x, P x -> P (Dv x). Hypothesis Hj : forall x, P x -> P (Dj x).
   Hypothesis Hn : forall x, P x -> P (Dn x). Hypothesis Ht : forall x, P x -> P (Dt x).
@@ -272,7 +271,7 @@ Section DmsInd.
     | Dafter t => Hafter t | Dolder t => Holder t | Dsha256 h => Hsha h | Dhash256 h => Hh256 h
     | Dripemd160 h => Hrip h | Dhash160 h => Hh160 h
     | Da x => Ha x (dms_ind' x) | Ds x => Hs x (dms_ind' x) | Dpk k => Hpk k | Dpkh k => Hpkh k
-    | Draw_pkh h => Hraw_pkh h | Dc x => Hc x (dms_ind' x) | Dd x => Hd x (dms_ind' x)
+    | Dc x => Hc x (dms_ind' x) | Dd x => Hd x (dms_ind' x)
     | Dv x => Hv x (dms_ind' x) | Dj x => Hj x (dms_ind' x) | Dn x => Hn x (dms_ind' x) | Dt x => Ht x (dms_ind' x)
     | Dand_v x y => Hand_v x y (dms_ind' x) (dms_ind' y) | Dand_n x y => Hand_n x y (dms_ind' x) (dms_ind' y)
     | Dand_b x y => Hand_b x y (dms_ind' x) (dms_ind' y)
@@ -295,7 +294,7 @@ Fixpoint norm (m : ms) : dms :=
   | MAfter t => Dafter t | MOlder t => Dolder t | MSha256 h => Dsha256 h | MHash256 h => Dhash256 h
   | MRipemd160 h => Dripemd160 h | MHash160 h => Dhash160 h
   | MAlt x => Da (norm x) | MSwap x => Ds (norm x)
-  | MCheck x => match x with MPkK k => Dpk k | MPkH k => Dpkh k | MRawPkH h => Draw_pkh h | _ => Dc (norm x) end
+  | MCheck x => match x with MPkK k => Dpk k | MPkH k => Dpkh k | _ => Dc (norm x) end
   | MDupIf x => Dd (norm x) | MVerify x => Dv (norm x) | MNonZero x => Dj (norm x) | MZeroNotEqual x => Dn (norm x)
   | MAndV l r => if is_true r then Dt (norm l) else Dand_v (norm l) (norm r)
   | MAndB l r => Dand_b (norm l) (norm r)
@@ -315,7 +314,7 @@ Fixpoint denorm (d : dms) : ms :=
   | Dafter t => MAfter t | Dolder t => MOlder t | Dsha256 h => MSha256 h | Dhash256 h => MHash256 h
   | Dripemd160 h => MRipemd160 h | Dhash160 h => MHash160 h
   | Da x => MAlt (denorm x) | Ds x => MSwap (denorm x)
-  | Dpk k => MCheck (MPkK k) | Dpkh k => MCheck (MPkH k) | Draw_pkh h => MCheck (MRawPkH h)
+  | Dpk k => MCheck (MPkK k) | Dpkh k => MCheck (MPkH k)
   | Dc x => MCheck (denorm x) | Dd x => MDupIf (denorm x) | Dv x => MVerify (denorm x)
   | Dj x => MNonZero (denorm x) | Dn x => MZeroNotEqual (denorm x)
   | Dt x => MAndV (denorm x) MTrue
@@ -333,13 +332,12 @@ Fixpoint dflat (d : dms) : list dnode :=
   match d with
   | D0 => [DNode F_0 0] | D1 => [DNode F_1 0]
   | Dpk_k k => [DNode F_pk_k 1; DKey k] | Dpk_h k => [DNode F_pk_h 1; DKey k]
-  | Draw_pk_h h => [DNode F_expr_raw_pk_h 1; DRawKeyHash h]
+  | Draw_pk_h h => [DNode F_expr_raw_pkh 1; DRawKeyHash h]
   | Dafter t => [DNode F_after 1; DAfter t] | Dolder t => [DNode F_older 1; DOlder t]
   | Dsha256 h => [DNode F_sha256 1; DSha256 h] | Dhash256 h => [DNode F_hash256 1; DHash256 h]
   | Dripemd160 h => [DNode F_ripemd160 1; DRipemd160 h] | Dhash160 h => [DNode F_hash160 1; DHash160 h]
   | Da x => DNode F_a 1 :: dflat x | Ds x => DNode F_s 1 :: dflat x
   | Dpk k => [DNode F_pk 1; DKey k] | Dpkh k => [DNode F_pkh 1; DKey k]
-  | Draw_pkh h => [DNode F_expr_raw_pkh 1; DRawKeyHash h]
   | Dc x => DNode F_c 1 :: dflat x | Dd x => DNode F_d 1 :: dflat x | Dv x => DNode F_v 1 :: dflat x
   | Dj x => DNode F_j 1 :: dflat x | Dn x => DNode F_n 1 :: dflat x | Dt x => DNode F_t 1 :: dflat x
   | Dand_v x y => DNode F_and_v 2 :: dflat x ++ dflat y | Dand_n x y => DNode F_and_n 2 :: dflat x ++ dflat y
